@@ -486,6 +486,17 @@ func (c *Ctx) handshakeFormulas(rule string, only map[string]bool) {
 		}
 		auth := S("GetAuthKey#0")
 		want := tslice(tsha1(nn, an.Fn("byte", an.Num(1)), tslice(tsha1(auth), 0, 8)), 4, 20)
+		if got == nil || got.String() != want.String() {
+			// the comparison may be spelled differently (hex strings, a helper): the expected value is right when
+			// some call of makeAuthKey receives exactly the protocol's expression
+			for i := range e.Seen {
+				for _, a := range e.Seen[i].Args {
+					if a.String() == want.String() {
+						got, pos = a, c.pos(e.Seen[i].Pos)
+					}
+				}
+			}
+		}
 		c.compareTerm(rule, "formula:new_nonce_hash1", pos, got, want, "the value dh_gen_ok.new_nonce_hash1 is compared with")
 	}
 	if only == nil || only["server_salt"] {
